@@ -198,6 +198,68 @@ def grid_items(part: int, parts: int, classes=None):
                    [(0, cls)], render)
 
 
+MULTI_ALPHABET = ("min", "nl_ind", "own_c")
+MULTI_CONTEXTS = (("top", [], []), ("binding", ["{", "k", "="], [";", "}"]))
+
+
+def multi_items(part: int, parts: int, alphabet=MULTI_ALPHABET, cap: int = 1200, stride: int = 1):
+    """Exhaustive small-alphabet grid: every free gap of every template takes every class of a
+    three-letter alphabet (tight / newline+indent / own-line comment) independently, at top level
+    and as a binding value; templates with more than `cap` combinations are sampled with a
+    template-stable generator.  Finds what needs two or three cooperating gaps."""
+    import itertools
+    n = -1
+    for tid, level, tpl in grid.TEMPLATES:
+        tokens, _gaps, glue = grid.parse_template(tpl)
+        free = [i for i, g in enumerate(glue) if not g]
+        total = len(alphabet) ** len(free)
+        if total <= cap:
+            combos = itertools.product(alphabet, repeat=len(free))
+        else:
+            rng = grid._stable_rng("multi", tid)
+            combos = (tuple(rng.choice(alphabet) for _ in free) for _ in range(cap))
+        for combo in combos:
+            if all(c == "min" for c in combo):
+                continue
+            for cname, pre, suf in MULTI_CONTEXTS:
+                n += 1
+                if n % parts != part or (n // parts) % stride:
+                    continue
+                toks = list(pre) + list(tokens) + list(suf)
+                gl = [False] * len(pre) + list(glue) + [False] * len(suf)
+                gl = gl[: len(toks) - 1]
+                serial = trivia.Serial()
+                rng2 = grid._stable_rng("multi", tid, combo, cname)
+                classes, gaps = [], []
+                fi = 0
+                for i in range(len(toks) - 1):
+                    ti = i - len(pre)
+                    if gl[i]:
+                        classes.append("glue")
+                        gaps.append("")
+                    elif 0 <= ti < len(tokens) - 1 and ti in free:
+                        cls = combo[free.index(ti)]
+                        classes.append(cls)
+                        gaps.append(trivia.gap_text(cls, rng2, serial, i, toks[i], toks[i + 1]))
+                    else:
+                        classes.append("min")
+                        gaps.append(trivia.minimal_gap(toks[i], toks[i + 1]) if (toks[i] not in ("=",) and toks[i + 1] not in (";",)) else (" " if toks[i] == "=" else ""))
+                prog = RandomProgram(toks, gl, classes, gaps, "", "min", "\n", "nl")
+                text, _ = prog.offsets(None)
+                cid = f"multi:{tid}:{cname}:{'.'.join(combo)}"
+                ref = cst.read(trivia.reference_text(toks, gl))
+                rd = cst.read(text)
+                if ref.error or rd.error or rd.tokens != ref.tokens or len(rd.comments) != serial.n:
+                    yield Case(cid, None, "grid-multi")
+                    continue
+
+                def render(keep, prog=prog):
+                    return prog.offsets(keep)[0]
+
+                yield Case(cid, text, "grid-multi", {"tpl": tid, "ctx": cname, "_prog": prog},
+                           prog.nonminimal(), render)
+
+
 def adj_items(part: int, parts: int):
     for n, (cid, text) in enumerate(grid.adjacency_cases()):
         if n % parts != part:
@@ -242,6 +304,8 @@ def items(spec: dict):
         return grid_items(spec["part"], spec["parts"], spec.get("classes"))
     if kind == "adj":
         return adj_items(spec["part"], spec["parts"])
+    if kind == "multi":
+        return multi_items(spec["part"], spec["parts"], cap=spec.get("cap", 1200), stride=spec.get("stride", 1))
     if kind == "random":
         return random_items(spec["seed"], spec["n"], spec["mode"],
                             depths=tuple(spec.get("depths", (2, 3, 4, 5))),
